@@ -19,6 +19,7 @@ def main():
     ap.add_argument("--tier", default="quick")
     ap.add_argument("--props", default="")
     ap.add_argument("--no-evidence", action="store_true")
+    ap.add_argument("--hashseed", default="", help="run with this PYTHONHASHSEED instead of 0 (robustness experiment)")
     ap.add_argument("--all-modules", action="store_true", help="every vf/checks/cNN.py, not only MANIFEST checks")
     a = ap.parse_args()
     if a.props:
@@ -32,7 +33,7 @@ def main():
         for p in props:
             cmd = ["/venv/bin/python", "-m", "vf.run", p, "--tier", a.tier] + (["--no-evidence"] if a.no_evidence else [])
             t0 = time.time()
-            r = subprocess.run(cmd, cwd=VERIF, env=dict(os.environ, VERIF_SEED=seed), capture_output=True, text=True)
+            r = subprocess.run(cmd, cwd=VERIF, env=dict(os.environ, VERIF_SEED=seed, **({"VERIF_HASHSEED": a.hashseed} if a.hashseed else {})), capture_output=True, text=True)
             dt = time.time() - t0
             head = next((l for l in r.stdout.splitlines() if l.startswith("==")), "")
             known = sum(1 for l in r.stdout.splitlines() if l.startswith("KNOWN-FINDING"))
